@@ -181,3 +181,8 @@ func Fail(point string) bool {
 	}
 	return false
 }
+
+var idN atomic.Uint64
+
+// ID returns a fresh correlation id for one operation.
+func ID() uint64 { return idN.Add(1) }
